@@ -3,3 +3,8 @@ CHECKS["C01"] = (
  "Theorems over the hand-written model of sproto_pop_in_sdp/srpc_iterate/recv_cb (Model/Proto, Model/Srpc): every delivered packet is the next good frame of the accepted byte stream for every stream, chunking and tick interleaving; errors kill the connection; buffer bounds. Tie: constants regenerated from the source, model and real code run on the same ops, direct monitor.",
  "trusted: Lean kernel, extractor probes, harness SDK model; realloc success assumed; staging-drop case (F20) excluded by hypothesis and monitored",
  "DESIGN.md 4/C01")
+CHECKS["C02"] = (
+ "Lean 4 theorems (conservation invariant through queue/out buffer/send shim; encode-decode round trip) + differential correspondence",
+ "Theorems over the model of srpc_async__call/srpc_iterate OUT half/sproto_out_buffer_append/sproto_pop_out_data/supla_esp_data_write: wire ++ shim ++ out buffer ++ queue = frames of the accepted calls in issue order for every history without a reported loss event; goodFrames (enc fs) = fs; request ids non-zero successor; overflow reported. Tie: constants regenerated, model and real code run on the same ops (calls, ticks, espconn result scripts), wire reassembled by a direct monitor.",
+ "trusted: Lean kernel, extractor probes, harness SDK (espconn_sent result semantics: 0 = taken, -5/-7 = nothing taken); hard espconn errors and reported overflows end the compared stream (NoLoss hypothesis)",
+ "DESIGN.md 4/C02")
